@@ -82,6 +82,12 @@ TRUSTED = [
     'shim replacing TatSu',
 ]
 ASSUMPTIONS = [
+    'no class of C03 is open: the left-handed WED defect (DESIGN 8 #20) was '
+    'repaired in /repo (15c826d), the model follows the repaired code and '
+    'the theorems cover both handednesses',
+    'degenerate inputs of the malformed stream whose sign tests are decided '
+    'at rounding level (flat ARB with the centroid on a facet plane, ...) are '
+    'left out of tie:body (skipped:ill-conditioned)',
     'ARB facet descriptors are non-negative integers (parse_facet loops for '
     'ever on a negative descriptor; fractional digits are truncated by the '
     'code, the model takes integers)',
